@@ -76,7 +76,10 @@ func runC07(r *Run) {
 		// wAction: 0 plain writes at the end, 1 chunked Writers (parks between
 		// chunks, so that writers of several connections overlap), 2 a compressed
 		// write that fails half way (peer not reading, context expiry) first
-		wAction int
+		// 3: plain writes and pings while another goroutine closes the connection
+		// (CloseNow) at a drawn moment; the slot's next connection follows at once
+		wAction    int
+		closeAfter int
 	}
 	type slotPlan struct{ conns []connPlan }
 	type keptSlice struct {
@@ -114,7 +117,8 @@ func runC07(r *Run) {
 				}
 			}
 			cp.write = t.Draw(3)
-			cp.wAction = t.Weighted(5, 3, 2)
+			cp.wAction = t.Weighted(5, 3, 2, 3)
+			cp.closeAfter = t.Draw(12)
 			if cp.wAction == 1 && cp.write == 0 {
 				cp.write = 1
 			}
@@ -346,6 +350,36 @@ func runC07(r *Run) {
 						if closed {
 							break
 						}
+					}
+					if !closed && cp.wAction == 3 {
+						done := false
+						r.S.Go(fmt.Sprintf("%s.closer%d", who, cp.id), func() {
+							for k := 0; k < cp.closeAfter && !done; k++ {
+								r.S.Park("a." + who + ".closer")
+							}
+							c.CloseNow()
+						})
+						nmsg := 0
+						for i := 0; i < 6; i++ {
+							r.S.Park("a." + who + ".w")
+							var err error
+							if i%3 == 2 {
+								ctx, cancel := context.WithTimeout(bg, time.Second)
+								err = c.Ping(ctx)
+								cancel()
+							} else {
+								// (small: below every compression threshold, so that the write
+								// goes straight to the frame writer)
+								err = c.Write(bg, websocket.MessageBinary, tagged(cp.id, 1, nmsg, 40+cp.id))
+								nmsg++
+							}
+							if err != nil {
+								break
+							}
+						}
+						done = true
+						r.S.Count("probe.close-during-writes")
+						return
 					}
 					if !closed {
 						for i := 0; i < cp.write; i++ {
